@@ -1,6 +1,70 @@
 (* C01 — Device resolution follows Spec-directory precedence. *)
-From Coq Require Import String List.
-From CDI Require Import Base Cache.
-Example C01_placeholder : scan nil = nil.
-Proof. reflexivity. Qed.
-Print Assumptions C01_placeholder.
+From Coq Require Import String Ascii List Bool Arith.
+From CDI Require Import Base SpecModel Parser Paths Cache CacheProofs.
+Import ListNotations.
+Open Scope string_scope.
+
+(* For EVERY list of configured directories and every population (fsview): after a refresh a name resolves iff, among the
+   loaded files that define it, exactly one has the highest priority, and then to that file's definition.  (unique_names:
+   every loaded file has unique device names, which validation guarantees for a loadable Spec.) *)
+Theorem C01_refresh_resolves : forall fs n,
+  unique_names (scan fs) -> get_device (refresh fs) n = resolve_spec (loaded (scan fs)) n.
+Proof. exact refresh_resolves_fs. Qed.
+Print Assumptions C01_refresh_resolves.
+(* the same for every scanned-file list in ascending priority order (histories: every refresh is refresh of the current content) *)
+Theorem C01_refresh_resolves_files : forall files n,
+  sorted (loaded files) -> unique_names files -> get_device (refresh_files files) n = resolve_spec (loaded files) n.
+Proof. exact refresh_resolves. Qed.
+Print Assumptions C01_refresh_resolves_files.
+Theorem C01_scan_sorted : forall fs, sorted (loaded (scan fs)).
+Proof. exact scan_sorted. Qed.
+Print Assumptions C01_scan_sorted.
+
+(* definitions AND conflicts below the highest-priority directory that defines n never change the outcome *)
+Theorem C01_lower_dirs_irrelevant : forall n p fl1 fl2,
+  from_prio p fl1 = from_prio p fl2 -> (exists f, In f (defs n fl1) /\ p <= lf_prio f) ->
+  resolve_spec fl1 n = resolve_spec fl2 n.
+Proof. exact lower_dirs_irrelevant. Qed.
+Print Assumptions C01_lower_dirs_irrelevant.
+
+(* listings: exactly those derivable from the loaded files *)
+Theorem C01_list_devices_exact : forall files n,
+  sorted (loaded files) -> unique_names files ->
+  (In n (list_devices (refresh_files files)) <-> resolve_spec (loaded files) n <> None).
+Proof. exact list_devices_exact. Qed.
+Print Assumptions C01_list_devices_exact.
+Theorem C01_list_vendors_exact : forall files v,
+  In v (list_vendors (refresh_files files)) <-> exists f, In f (loaded files) /\ vendor_of f = v.
+Proof. exact list_vendors_exact. Qed.
+Print Assumptions C01_list_vendors_exact.
+Theorem C01_list_classes_exact : forall files k,
+  In k (list_classes (refresh_files files)) <-> exists f, In f (loaded files) /\ class_of f = k.
+Proof. exact list_classes_exact. Qed.
+Print Assumptions C01_list_classes_exact.
+Theorem C01_vendor_specs_exact : forall files v,
+  vendor_specs (c_specs (refresh_files files)) v = filter (fun f => String.eqb v (vendor_of f)) (loaded files).
+Proof. intros files v. unfold refresh_files, refresh_st. cbn [c_specs]. rewrite vendor_specs_exact. reflexivity. Qed.
+Print Assumptions C01_vendor_specs_exact.
+
+(* everything that is not a .json/.yaml file directly inside a configured directory is ignored *)
+Theorem C01_scan_ignores_entry : forall prio dpath l x,
+  (is_spec_name (fst x) = false \/ snd x = ESub) ->
+  scan_dir prio (dpath, DDir (x :: l)) = scan_dir prio (dpath, DDir l).
+Proof. exact scan_ignores_entry. Qed.
+Print Assumptions C01_scan_ignores_entry.
+Theorem C01_scan_skips_unusable : forall prio d r, snd d = DMissing \/ snd d = DUnscannable ->
+  scan_from prio (d :: r) = scan_from (S prio) r.
+Proof. exact scan_skips_unusable. Qed.
+Print Assumptions C01_scan_skips_unusable.
+
+(* non-vacuity and the witness of the repaired defect D3: two files in directory 0 and one in directory 1 define d *)
+Definition ex_spec (fp : string) : spec :=
+  mkSpec "0.3.0" "v.com/c" [] [mkDevice "d" [] (mkEdits [fp] [] [] [] None [])] empty_edits.
+Definition ex_fs : fsview :=
+  [("/etc/cdi", DDir [("b.json", EFile (Some (ex_spec "FP=b"))); ("a.json", EFile (Some (ex_spec "FP=a"))); ("x.txt", EFile None)]);
+   ("/run/cdi", DDir [("c.yaml", EFile (Some (ex_spec "FP=c"))); ("sub", ESub)])].
+Example C01_example :
+  list_devices (refresh ex_fs) = ["v.com/c=d"] /\
+  option_map (fun cd => lf_path (cd_file cd)) (get_device (refresh ex_fs) "v.com/c=d") = Some "/run/cdi/c.yaml" /\
+  error_keys (refresh ex_fs) = ["/etc/cdi/a.json"; "/etc/cdi/b.json"].
+Proof. vm_compute. repeat split; reflexivity. Qed.
